@@ -247,7 +247,8 @@ def fmt_value(ex, out, kind, ty, v, opts=None):
             res = ex.exec_fn(f, [as_base(v) if type(v) is Ref else as_ref(val), mk_formatter(out)])
             return res.var == 0
         if debug:
-            return sink_write(ex, out, "<%s:?>" % val.ty)
+            hook = getattr(ex, "debug_repr", None)
+            return sink_write(ex, out, hook(v) if hook else "<%s:?>" % val.ty)
         m = ex.models.get(val.ty + " as Display::fmt")
         if m is not None:
             res = m(ex, None, [v, mk_formatter(out)])
